@@ -22,10 +22,62 @@ static const long blocks[][6] = {
 };
 #define NBLOCKS (sizeof blocks / sizeof blocks[0])
 
+/* the same number built through the public constructor from a caller-chosen isolating interval: wide (several integers
+   inside), end points with different denominators, anywhere between the neighbouring roots */
+static void dy_between(lp_dyadic_rational_t* out, const lp_dyadic_rational_t* lo, const lp_dyadic_rational_t* hi) {
+  /* lo + t*(hi - lo), t in {1/8, 1/4, 1/2, 3/4, 7/8} */
+  static const long tn[] = { 1, 1, 1, 3, 7 }; static const unsigned tk[] = { 3, 2, 1, 2, 3 };
+  unsigned w = rnd(5);
+  lp_dyadic_rational_t d; lp_dyadic_rational_construct(&d);
+  lp_dyadic_rational_sub(&d, hi, lo);
+  lp_dyadic_rational_t m; lp_dyadic_rational_construct_from_int(&m, tn[w], 0);
+  lp_dyadic_rational_mul(&d, &d, &m);
+  lp_dyadic_rational_div_2exp(&d, &d, tk[w]);
+  lp_dyadic_rational_add(out, lo, &d);
+  lp_dyadic_rational_destruct(&m); lp_dyadic_rational_destruct(&d);
+}
+static void pool_add_wide(const lp_upolynomial_t* f, const lp_algebraic_number_t* roots, size_t n, size_t i) {
+  if (roots[i].I.is_point || npool >= POOL - 6) return;
+  lp_dyadic_rational_t lo, hi, l, u, three;
+  lp_dyadic_rational_construct_from_int(&three, 1 + (long)rnd(4), 0);
+  lp_dyadic_rational_construct(&lo); lp_dyadic_rational_construct(&hi); lp_dyadic_rational_construct(&l); lp_dyadic_rational_construct(&u);
+  if (i > 0) lp_dyadic_rational_assign(&lo, roots[i - 1].I.is_point ? &roots[i - 1].I.a : &roots[i - 1].I.b);
+  else lp_dyadic_rational_sub(&lo, &roots[i].I.a, &three);
+  if (i + 1 < n) lp_dyadic_rational_assign(&hi, &roots[i + 1].I.a);
+  else lp_dyadic_rational_add(&hi, &roots[i].I.b, &three);
+  dy_between(&l, &lo, &roots[i].I.a); dy_between(&u, &roots[i].I.b, &hi);
+  if (chance(50)) { /* a lower end close to zero with a fine denominator, when it still isolates the root */
+    static const long sn[] = { 1, 1, 1, -1, -1, -1, 3, -3 }; static const unsigned sk[] = { 3, 2, 1, 3, 2, 1, 3, 2 };
+    unsigned w = rnd(8); lp_dyadic_rational_t c; lp_dyadic_rational_construct_from_int(&c, sn[w], sk[w]);
+    if (lp_dyadic_rational_cmp(&lo, &c) < 0 && lp_dyadic_rational_cmp(&c, &roots[i].I.a) < 0) lp_dyadic_rational_assign(&l, &c);
+    lp_dyadic_rational_destruct(&c);
+  }
+  if (chance(50)) { /* an upper end with a coarse denominator: integer or half-integer */
+    lp_integer_t z; lp_integer_construct(&z); lp_dyadic_rational_ceiling(&roots[i].I.b, &z);
+    lp_dyadic_rational_t c; lp_dyadic_rational_construct_from_integer(&c, &z);
+    lp_dyadic_rational_t e; lp_dyadic_rational_construct_from_int(&e, (long)rnd(6), 1);      /* + 0, 1/2, .., 5/2 */
+    lp_dyadic_rational_add(&c, &c, &e);
+    if (lp_dyadic_rational_cmp(&roots[i].I.b, &c) <= 0 && lp_dyadic_rational_cmp(&c, &hi) < 0) lp_dyadic_rational_assign(&u, &c);
+    lp_dyadic_rational_destruct(&c); lp_dyadic_rational_destruct(&e); lp_integer_destruct(&z);
+  }
+  lp_dyadic_interval_t I; lp_dyadic_interval_construct(&I, &l, 1, &u, 1);
+  lp_algebraic_number_construct(&pool[npool++], lp_upolynomial_construct_copy(f), &I);
+  lp_dyadic_interval_destruct(&I);
+  { /* what the constructor made of the interval is observed at once (floor / ceiling / integrality rely on its normalisation) */
+    const lp_algebraic_number_t* a = &pool[npool - 1]; lp_integer_t z; lp_integer_construct(&z);
+    sb_begin("alg", "floor"); sb_sp(); sb_alg(a); sb_arrow(); lp_algebraic_number_floor(a, &z); sb_sp(); sb_mpz(&z); sb_emit();
+    sb_begin("alg", "ceil"); sb_sp(); sb_alg(a); sb_arrow(); lp_algebraic_number_ceiling(a, &z); sb_sp(); sb_mpz(&z); sb_emit();
+    sb_begin("alg", "isint"); sb_sp(); sb_alg(a); sb_arrow(); sb_sp(); sb_long(lp_algebraic_number_is_integer(a)); sb_emit();
+    lp_integer_destruct(&z);
+  }
+  lp_dyadic_rational_destruct(&lo); lp_dyadic_rational_destruct(&hi); lp_dyadic_rational_destruct(&l); lp_dyadic_rational_destruct(&u); lp_dyadic_rational_destruct(&three);
+}
+
 static void pool_add_roots(const long* b) {
   lp_upolynomial_t* f = lp_upolynomial_construct_from_long(lp_Z, b[0], b + 1);
   lp_algebraic_number_t roots[4]; size_t n = 0;
   lp_upolynomial_roots_isolate(f, roots, &n);
+  if (n && chance(35)) pool_add_wide(f, roots, n, rnd(n));
   for (size_t i = 0; i < n; ++i) { if (npool < POOL - 6) pool[npool++] = roots[i]; else lp_algebraic_number_destruct(&roots[i]); }
   lp_upolynomial_delete(f);
 }
